@@ -106,7 +106,7 @@ def triage(unit, units, res, prop, tier='quick'):
                 return {'verdict': 'undecided', 'replay': path,
                         'reason': 'extraction-fidelity: verifier counterexample does not reproduce on the real code (see %s)' % path}
         path = write_replay(prop, unit, res, body + '\nverifier output with counterexample trace:\n' + tr['out'][-30000:])
-        return {'verdict': 'violation', 'replay': (nat or {}).get('file') or path, 'failing_input': bool(vals), 'reason': 'refuted (loop-free)'}
+        return {'verdict': 'violation', 'replay': (nat or {}).get('file') or path, 'failing_input': bool(vals) or ('Trace for' in tr['out']), 'reason': 'refuted (loop-free)'}
     verdict, blog = bounded_recheck(unit, units, outdir)
     if verdict == 'proved':
         path = write_replay(prop, unit, res, 'invariant-independent bounded re-check (capacity %d, loops unwound, unwinding assertions): PASSED\n'
